@@ -1,6 +1,7 @@
 package rules
 
 import (
+	"os"
 	"fmt"
 	"go/constant"
 	"go/token"
@@ -27,6 +28,13 @@ func c08(c *Ctx) {
 	c08asserts(c, pkg)
 	c08embedded(c, pkg)
 	c08funnels(c)
+	c.memoKeysDetermine("C08.R9", pkg, 4)
+	c08adapters(c)
+	if os.Getenv("GZV_MEMO_SCAN") != "" {
+		for _, pk := range c.P.Pkgs {
+			c.memoKeysDetermine("SCAN", strings.TrimPrefix(pk.PkgPath, mod), 0)
+		}
+	}
 	if n := c.freshPerIteration("C08.R7", "core/mapping"); n < 2 {
 		c.R.Undecided("C08.R7", "core/mapping#fresh", "per-iteration stores of reflect.New targets are recognised", fmt.Sprintf("%d found", n))
 	}
@@ -332,6 +340,11 @@ func c08r2(c *Ctx, pkg string) {
 						case "core/stringx.Contains":
 							if len(v.Call.Args) == 2 && isOptions(v.Call.Args[0]) && p.Abs(v.Res).K == px.True {
 								ok = true
+								// the text tested is the text supplied: a normalised copy (trimmed, lower-cased …) passing the
+								// test says nothing about the raw value that is stored afterwards
+								if why := notVerbatim(p, v.Call.Args[1], 0); why != "" {
+									return false, fmt.Sprintf("the options-membership test at %s is applied to a transformed copy of the supplied value (%s) while the supplied value itself is stored: a value that is not one of the declared options can pass", c.P.Pos(v.Pos), why)
+								}
 							}
 						}
 					case px.EvBranch:
@@ -359,6 +372,43 @@ func c08r2(c *Ctx, pkg string) {
 		c.R.Undecided(rule, "store sites", "primitive stores are reached", fmt.Sprintf("only %d primitive store events on all paths (expected ≥5): the store helpers were renamed or the chain changed", totalStores))
 	}
 	c.R.Min(rule, 2, "processNamedFieldWithValue, processFieldWithEnvValue")
+}
+
+// notVerbatim: "" when s is the supplied value as it came (a parameter seen through type assertions, comma-ok
+// extraction, boxing, conversions and the String() of a Stringer such as json.Number); otherwise what transformed it.
+func notVerbatim(p *px.Path, s *px.Sym, d int) string {
+	s = s.Strip(true)
+	if s == nil || d > 8 {
+		return "unknown derivation"
+	}
+	switch s.Kind {
+	case px.KParam, px.KConst:
+		return ""
+	case px.KTypeAssert, px.KExtract:
+		return notVerbatim(p, s.X, d+1)
+	case px.KLoad:
+		if s.X != nil && s.X.Kind == px.KAlloc {
+			if v := p.CellValue(s.X); v != nil {
+				return notVerbatim(p, v, d+1)
+			}
+		}
+		return ""
+	case px.KCall:
+		if s.Call != nil && s.Call.Obj() != nil && s.Call.Obj().Name() == "String" && len(s.Call.Args) <= 1 {
+			if s.Call.Recv != nil {
+				return notVerbatim(p, s.Call.Recv, d+1)
+			}
+			if len(s.Call.Args) == 1 {
+				return notVerbatim(p, s.Call.Args[0], d+1)
+			}
+		}
+		if s.Call != nil {
+			return "result of " + s.Call.Name()
+		}
+	case px.KPhi:
+		return ""
+	}
+	return s.Describe()
 }
 
 // R3: required fields / nil values.
